@@ -52,6 +52,13 @@ class C05(SessionCheck):
             for tr in trs:
                 extras = [['urn:example:extra:1.0'], ['urn:example:extra:1.0', 'urn:example:other:2.0?x=1'], []][(i + len(tr)) % 3]
                 out.append({'kind': 'connect', 'sc': {'transport': tr, 'profile': pf, 'extras': extras, 'server11': (i % 3 != 1)}})
+        # profile OPTIONS that change how the session reads (Junos streaming filter) and hellos that are long before their root element
+        # starts / whose root start tag is long: the hello exchange is the same
+        out.append({'kind': 'connect', 'sc': {'transport': 'ssh', 'profile': 'junos', 'device_params': {'use_filter': True}, 'extras': [], 'server11': True}})
+        out.append({'kind': 'connect', 'sc': {'transport': 'unix', 'profile': 'junos', 'device_params': {'use_filter': True}, 'extras': [], 'server11': False}})
+        for i, shape in enumerate(['banner', 'prefixes', 'pi', 'banner']):
+            out.append({'kind': 'connect', 'sc': {'transport': ['unix', 'ssh', 'tls', 'unix'][i] if tier == 'thorough' else 'unix', 'profile': ['default', 'nexus', 'default', 'junos'][i],
+                                                  'extras': [], 'server11': i % 2 == 0, 'hello_shape': shape}})
         # arrival timing of the server's <hello> over a real SSH transport: never sent, sent in pieces that complete well inside the
         # timeout, and dripped for ever without its end (connect must fail within the timeout, not hang)
         # the <hello> document itself, for every profile: HelloHandler.build vs the model's serialize (helloTree), read back by an
@@ -140,7 +147,16 @@ class C05(SessionCheck):
         sc = case['sc']
         self.stats['connect_e2e'] = self.stats.get('connect_e2e', 0) + 1
         caps = [c for c in FS.STD_CAPS if sc['server11'] or c != B11]
-        srv = e2e.make_server(dict(sc, server_caps=caps), None)
+        kws = {}
+        if sc.get('hello_shape'):
+            body = '<capabilities>%s</capabilities><session-id>4711</session-id>' % ''.join('<capability>%s</capability>' % c.replace('&', '&amp;') for c in caps)
+            if sc['hello_shape'] == 'banner':
+                kws['hello_text'] = '<!-- %s -->\n<hello xmlns="%s">%s</hello>' % ('device banner: authorised use only. ' * 200, FS.BASE_NS, body)
+            elif sc['hello_shape'] == 'pi':
+                kws['hello_text'] = '<?xml version="1.0" encoding="UTF-8"?>\n%s<hello xmlns="%s">%s</hello>' % ('<?vendor %s?>\n' % ('x' * 900) * 6, FS.BASE_NS, body)
+            else:
+                kws['hello_text'] = '<hello xmlns="%s"%s>%s</hello>' % (FS.BASE_NS, ''.join(' xmlns:m%d="urn:example:yang:module-%d:with-a-rather-long-namespace-name"' % (k, k) for k in range(120)), body)
+        srv = e2e.make_server(dict(sc, server_caps=caps), None, **kws)
         res = {'connect': 'ok', 'transport': sc['transport']}
         m = None
         try:
